@@ -40,12 +40,14 @@ Inductive prog (A : Type) :=
 | Ret (a : A)
 | Fail (e : terr)
 | Spin                                             (* the Go loop never terminates *)
+| OutOfFuel                                        (* model artefact: not enough fuel given *)
 | PLen (t : tid) (cont : Z -> prog A)               (* rt.IntLen *)
 | PGet (t : tid) (k : Z) (cont : value -> prog A)   (* rt.Index(t, IntValue(k)) *)
 | PSet (t : tid) (k : Z) (v : value) (cont : prog A). (* rt.SetIndex *)
 Arguments Ret {A} a.
 Arguments Fail {A} e.
 Arguments Spin {A}.
+Arguments OutOfFuel {A}.
 Arguments PLen {A} t cont.
 Arguments PGet {A} t k cont.
 Arguments PSet {A} t k v cont.
@@ -55,6 +57,7 @@ Fixpoint pbind {A B} (p : prog A) (f : A -> prog B) : prog B :=
   | Ret a => f a
   | Fail e => Fail e
   | Spin => Spin
+  | OutOfFuel => OutOfFuel
   | PLen t c => PLen t (fun x => pbind (c x) f)
   | PGet t k c => PGet t k (fun x => pbind (c x) f)
   | PSet t k v c => PSet t k v (pbind c f)
@@ -153,19 +156,25 @@ Definition tostr (v : value) : option bytes :=
   | _ => None
   end.
 
-Fixpoint concat_loop (n : nat) (i : Z) (sep acc : bytes) : prog bytes :=
-  match n with
-  | O => Ret acc
-  | S n' =>
+(* The loop is written with its own exit tests and explicit fuel (the range
+   i..j may span the whole of int64 while the loop stops at the first element
+   that is not a string or number):
+     for { if i == MaxInt64 {break}; i++; if i > j {break}; …item i… } *)
+Fixpoint concat_loop (fuel : nat) (i j : Z) (sep acc : bytes) : prog bytes :=
+  match fuel with
+  | O => OutOfFuel
+  | S f =>
+    if i =? maxint then Ret acc else
     let i := wrap (i + 1) in
+    if i >? j then Ret acc else
     PGet T1 i (fun item =>
       match tostr item with
       | None => Fail (TEInvalid i)
-      | Some s => concat_loop n' i sep (acc ++ sep ++ s)
+      | Some s => concat_loop f i j sep (acc ++ sep ++ s)
       end)
   end.
 
-Definition concat_im (sep : option bytes) (i j : option Z) : prog bytes :=
+Definition concat_im (fuel : nat) (sep : option bytes) (i j : option Z) : prog bytes :=
   PLen T1 (fun L =>
     let j := match j with Some j => j | None => L end in
     let i := match i with Some i => i | None => 1 end in
@@ -174,7 +183,7 @@ Definition concat_im (sep : option bytes) (i j : option Z) : prog bytes :=
     PGet T1 i (fun item =>
       match tostr item with
       | None => Fail (TEInvalid i)
-      | Some s => concat_loop (Z.to_nat (j - i)) i sep s
+      | Some s => concat_loop fuel i j sep s
       end)).
 
 (* ------------------------------------------------------------------ pack *)
@@ -204,10 +213,12 @@ Definition tlen (st : tstate) (t : tid) : Z := match t with T1 => len1 st | T2 =
 Inductive outcome (A : Type) :=
 | ORet (a : A)
 | OFail (e : terr)
-| OSpin.
+| OSpin
+| OOutOfFuel.
 Arguments ORet {A} a.
 Arguments OFail {A} e.
 Arguments OSpin {A}.
+Arguments OOutOfFuel {A}.
 
 (* plain run: no metamethod ever raises *)
 Fixpoint run {A} (p : prog A) (st : tstate) : outcome A * tstate :=
@@ -215,6 +226,7 @@ Fixpoint run {A} (p : prog A) (st : tstate) : outcome A * tstate :=
   | Ret a => (ORet a, st)
   | Fail e => (OFail e, st)
   | Spin => (OSpin, st)
+  | OutOfFuel => (OOutOfFuel, st)
   | PLen t c => run (c (tlen st t)) st
   | PGet t k c => run (c (tget st t k)) st
   | PSet t k v c => run c (tset st t k v)
@@ -233,6 +245,7 @@ Fixpoint run_log {A} (p : prog A) (st : tstate) (inj : nat) (log : list event)
   | Ret a => (ORet a, st, log)
   | Fail e => (OFail e, st, log)
   | Spin => (OSpin, st, log)
+  | OutOfFuel => (OOutOfFuel, st, log)
   | PLen t c => run_log (c (tlen st t)) st inj (ELen t :: log)
   | PGet t k c =>
     match inj with
